@@ -358,3 +358,5 @@ def run(ctx) -> None:
                        "every pattern over 'a*.+' up to length 6 x every subject up to length 5")
     ctx.random("glob-to-regex-converter-random-strings", MOD, "conv_strategy", "check_conv", 20000 if ctx.tier == "quick" else 400000)
     ctx.random("trees-with-exclusions", MOD, "strategy", "check_case", 3000 if ctx.tier == "quick" else 150000)
+    # coverage-guided arm over the same strategy and oracle (atheris; skipped when it is not installed)
+    ctx.fuzz("coverage-guided-trees-with-exclusions", "strategy", "check_case", runs=300 if ctx.tier == "quick" else 10000, procs=4 if ctx.tier == "quick" else 12)
